@@ -99,6 +99,9 @@ def check(ctx):
         o.count()
         v = s.stmt.value if isinstance(s.stmt, ast.Assign) else None
         okv = isinstance(v, ast.Constant) and v.value is None
+        if v is not None and s.func is not None:
+            from ..norm import single_defs as _sd
+            v = subst(v, _sd(s.func))          # through locals (`needed = self._resources_for_processing`, `rm = self.env.resource_manager`)
         if isinstance(v, ast.Call) and call_attr(v) == 'reserve_resources' and len(v.args) == 1 and is_self_attr(v.args[0], '_resources_for_processing') \
                 and 'resource_manager' in ast.unparse(v.func):
             okv = True
